@@ -49,6 +49,8 @@ func init() {
 				New: "\tif playerinfo.ContainsAction(actions, playerinfo.UpdateLatencyAction) {\n\t\tdoInternalEntity(currentEntry, func(e internalEntry) {\n\t\t\te.SetListedInternal(info.Listed)", Expect: "consume-pairing"},
 			{Name: "backend-gamemode-ignored", File: pkgITab + "/tablist.go",
 				Old: "\tif playerinfo.ContainsAction(actions, playerinfo.UpdateGameModeAction) {\n\t\tdoInternalEntity(currentEntry, func(e internalEntry) {\n\t\t\te.SetGameModeInternal(info.GameMode)\n\t\t})\n\t}\n", New: "", Expect: "consume-pairing"},
+			{Name: "readd-of-existing-entry-dropped", File: pkgITab + "/tablist.go",
+				Old: "\t\t} // else: Received an add player packet for an existing entry; this does nothing.\n", New: "\t\t} else {\n\t\t\treturn nil\n\t\t}\n", Expect: "update-not-dropped"},
 			{Name: "new-entry-without-listed", File: pkgITab + "/tablist.go",
 				Old: "\t\t\tplayerinfo.AddPlayerAction,\n\t\t\tplayerinfo.UpdateLatencyAction,\n\t\t\tplayerinfo.UpdateListedAction,\n", New: "\t\t\tplayerinfo.AddPlayerAction,\n\t\t\tplayerinfo.UpdateLatencyAction,\n", Expect: "new-entry"},
 			{Name: "remove-packet-omits-ids", File: pkgITab + "/tablist.go",
@@ -275,6 +277,8 @@ func runC28(c *Ctx) {
 				"backend updates carrying "+a.action+" are not applied to the model: the proxy keeps reporting the old "+a.getter+" while the client shows the new one")
 		}
 	}
+
+	checkUpdateNotDropped(c, upd)
 
 	// ---- (3) removals
 	if pr := c.MustFunc(pkgITab + ":(*TabList).ProcessRemove"); pr != nil {
